@@ -318,7 +318,7 @@ func (v *V) Coq() (string, bool) {
 		return "(MInt " + cq.BigZ(new(big.Int).SetUint64(v.U)) + ")", true
 	case F32, F64:
 		if math.IsNaN(v.F) {
-			return "", false
+			return "MNaN", true
 		}
 		return "(MF64 " + cq.BF(new(big.Float).SetFloat64(v.F)) + ")", true
 	case Str:
@@ -326,9 +326,9 @@ func (v *V) Coq() (string, bool) {
 	case Bin:
 		t, err := jv.Parse([]byte(v.S))
 		if err != nil {
-			return "", false
+			return "(MBin " + cq.Str(v.S) + " None)", true
 		}
-		return "(MType " + t.Coq() + ")", true
+		return "(MBin " + cq.Str(v.S) + " (Some " + t.Coq() + "))", true
 	case Arr:
 		items := make([]string, len(v.L))
 		for i, x := range v.L {
@@ -352,28 +352,94 @@ func (v *V) Coq() (string, bool) {
 		return "(MMap " + cq.List(items) + ")", true
 	case Ext:
 		if len(v.S) <= 1 {
-			return "(MUnk [])", true
+			return "(MUnk 0 [])", true
 		}
-		if v.Code != 0x0c {
-			return "", false
+		if v.Code != 0x0c || len(v.S) > 1024 {
+			return "MExt", true
 		}
-		body, err := ParseAll([]byte(v.S))
-		if err != nil || body.K != Map {
-			return "", false
+		n, rest, ok := mapHeader([]byte(v.S))
+		if !ok {
+			c := v.S[0]
+			if c == 0xc0 || (c >= 0xd4 && c <= 0xd8) || (c >= 0xc7 && c <= 0xc9) {
+				return "", false // nil or ext-prefixed refinement body: library corner not modelled
+			}
+			return "MExt", true // not a map: a decoding error at every target type
 		}
 		var items []string
-		for i := 0; i+1 < len(body.L); i += 2 {
-			k := body.L[i]
-			if k.K != Int {
-				return "", false
+		for i := 0; i < 2*n && i < 2048; i++ {
+			x, r, err := Parse(rest)
+			if err != nil {
+				items = append(items, "MBad")
+				break
 			}
-			x, ok := body.L[i+1].Coq()
+			sx, ok := x.Coq()
 			if !ok {
 				return "", false
 			}
-			items = append(items, cq.Pair(cq.Z(k.I), x))
+			items = append(items, sx)
+			rest = r
 		}
-		return "(MUnk " + cq.List(items) + ")", true
+		return "(MUnk " + cq.Z(int64(n)) + " " + cq.List(items) + ")", true
 	}
 	return "", false
+}
+
+// mapHeader reads a map header (fixmap / map16 / map32) and returns the entry count and the rest.
+func mapHeader(b []byte) (int, []byte, bool) {
+	if len(b) == 0 {
+		return 0, nil, false
+	}
+	c := b[0]
+	switch {
+	case c >= 0x80 && c <= 0x8f:
+		return int(c & 0x0f), b[1:], true
+	case c == 0xde && len(b) >= 3:
+		return int(binary.BigEndian.Uint16(b[1:3])), b[3:], true
+	case c == 0xdf && len(b) >= 5:
+		return int(binary.BigEndian.Uint32(b[1:5])), b[5:], true
+	}
+	return 0, nil, false
+}
+
+// JTable lists, for every str item in the type position of a two-element array, its content
+// parsed as JSON (the decoder's DecodeBytes takes str items as well as bin items there).
+func (v *V) JTable() string {
+	var items []string
+	seen := map[string]bool{}
+	var walk func(x *V)
+	walk = func(x *V) {
+		if x.K == Arr && len(x.L) == 2 && x.L[0].K == Str && !seen[x.L[0].S] {
+			if t, err := jv.Parse([]byte(x.L[0].S)); err == nil {
+				seen[x.L[0].S] = true
+				items = append(items, cq.Pair(cq.Str(x.L[0].S), t.Coq()))
+			}
+		}
+		for _, y := range x.L {
+			walk(y)
+		}
+	}
+	walk(v)
+	return cq.List(items)
+}
+
+// Strings lists every str / bin content in the tree (for normalisation tables).
+func (v *V) Strings(f func(string)) {
+	if v.K == Str || v.K == Bin {
+		f(v.S)
+	}
+	if v.K == Ext && len(v.S) > 1 && v.Code == 0x0c {
+		if _, rest, ok := mapHeader([]byte(v.S)); ok {
+			for len(rest) > 0 {
+				x, r, err := Parse(rest)
+				if err != nil {
+					break
+				}
+				x.Strings(f)
+				rest = r
+			}
+		}
+	}
+	for _, y := range v.L {
+		y.Strings(f)
+	}
 }
